@@ -49,6 +49,11 @@ Idx3 == {<<0, 1, 2>>, <<0, 2, 5>>, <<1, 2, 24>>, <<0, 23, 24>>}
 ThreeFields == { Struct(e, -1, sh, <<F(ix[1], o1, -1, "u8"), F(ix[2], o2, t, "str"), F(ix[3], o3, -1, "u8")>>) :
                    e \in Encs, sh \in {"named", "tuple"}, ix \in Idx3, o1 \in BOOLEAN, o2 \in BOOLEAN, o3 \in BOOLEAN, t \in {-1, 7} }
 ThreeFieldsQ == { S \in ThreeFields : (S.shape = "tuple" => S.fields[2].tag = -1) /\ (S.fields[1].idx = 1 => S.shape = "named") }
+\* wide indices: map keys and array positions at the next head widths, variant indices beyond 23 / 255
+WideIdx == { Struct("map", -1, "named", <<F(23, FALSE, -1, "u8"), F(24, TRUE, -1, "u8"), F(255, FALSE, -1, "str"), F(256, TRUE, -1, "u8"), F(65536, TRUE, -1, "u8")>>),
+             Struct("array", -1, "named", <<F(0, FALSE, -1, "u8"), F(30, TRUE, -1, "u8")>>) }
+           \cup { Enum(e, -1, FALSE, <<Variant(23, e, -1, "unit", <<>>), Variant(24, e, -1, "tuple", <<F(0, FALSE, -1, "u8")>>), Variant(256, e, -1, "named", <<F(0, TRUE, -1, "u8")>>),
+                                      Variant(70000, e, -1, "unit", <<>>)>>) : e \in Encs }
 \* skipped fields, transparent newtypes
 Misc == { Struct(e, -1, "named", <<F(0, FALSE, -1, "u8"), FSkip(1), F(2, TRUE, -1, "str")>>) : e \in Encs }
         \cup { Transparent(F(0, FALSE, -1, ty)) : ty \in {"u8", "str", "inA", "e2", "cu", "bytes"} }
@@ -80,8 +85,8 @@ EnumsQ == { S \in EnumsF : (S.tag = 7 => S.variants[2].tag = -1) /\ (S.variants[
 Big(e) == Struct(e, -1, "named", [i \in 1..25 |-> F(i - 1, TRUE, -1, "u8")])
 BigVals == { [i \in 1..25 |-> IF i \in s THEN FV(TRUE, 7, <<>>, <<>>) ELSE None] : s \in {{}, {1}, {24}, {25}, {1, 25}, 1..23, 1..24, 1..25, 2..25} }
 
-Family == IF Tier = "quick" THEN { S \in OneFieldQ : S.fields[1].idx = 0 \/ S.fields[1].ty \in {"u8", "e2", "cu"} } \cup { S \in ThreeFieldsQ : S.shape = "named" } \cup Misc \cup EnumsQ \cup EnumsSame \cup OptSpell \cup Borrowing
-          ELSE OneFieldQ \cup ThreeFieldsQ \cup Misc \cup EnumsQ \cup EnumsSame \cup OptSpell \cup Borrowing
+Family == IF Tier = "quick" THEN { S \in OneFieldQ : S.fields[1].idx = 0 \/ S.fields[1].ty \in {"u8", "e2", "cu"} } \cup { S \in ThreeFieldsQ : S.shape = "named" } \cup Misc \cup WideIdx \cup EnumsQ \cup EnumsSame \cup OptSpell \cup Borrowing
+          ELSE OneFieldQ \cup ThreeFieldsQ \cup Misc \cup WideIdx \cup EnumsQ \cup EnumsSame \cup OptSpell \cup Borrowing
 
 \* ---- compatible changes (reader schemas derived from a writer schema) ----
 SetField(S, i, f) == [S EXCEPT !.fields[i] = f]
@@ -92,6 +97,10 @@ FreeAll(S) == {0, 1, 3, 4, 6, 25} \ { S.fields[i].idx : i \in 1..Len(S.fields) }
 FreeIdx(S) == IF Tier = "quick" THEN { CHOOSE x \in FreeAll(S) : \A y \in FreeAll(S) : x <= y, 25 } ELSE FreeAll(S)
 Readers(S) == { DropField(S, i) : i \in { j \in 1..Len(S.fields) : S.fields[j].opt } }
               \cup { AddField(S, F(n, TRUE, t, ty)) : n \in FreeIdx(S), t \in {-1, 7}, ty \in (IF Tier = "quick" THEN {"u8"} ELSE {"u8", "str"}) }
+              \* a new optional field of a nested struct / enum / byte-string type (it meets the null of a gap, a short array, a missing key)
+              \cup { AddField(S, F(n, TRUE, -1, ty)) : n \in FreeIdx(S), ty \in (IF Tier = "quick" THEN {"inA", "e2"} ELSE {"inA", "inM", "e2", "io", "bytes"}) }
+              \* ... and one whose codec is a user function without a nil of its own (Option<Vec<u8>> with = minicbor::bytes), tagged and untagged
+              \cup { AddField(S, F(n, TRUE, t, "bytes")) : n \in FreeIdx(S), t \in {-1, 7} }
 \* nested enums used as optional fields: the writer knows more variants / has turned a unit variant into a struct variant
 HostTys == {"e2", "e2x", "e2u", "io", "iox", "e2m", "e2mu", "e2a", "e2au"}
 \* (the optional enum field in every spelling: Option<E>, Box<Option<E>>, a type alias, a type parameter)
@@ -151,6 +160,8 @@ Emit == /\ (ph' = "done") =>
              LET b == DocEnc(wsch, wv) IN
              \* forward: the reader rsch' decodes what the writer wsch wrote; backward: wsch decodes what rsch' writes (for values rsch' has)
              /\ Case("dec", [schema |-> rsch', bytes |-> b, rel |-> "fwd"], DecExp(wsch, rsch', wv, b))
+             \* ... and when the writer's containers are of indefinite length
+             /\ LET bi == DocEncP(wsch, wv, IndefPt) IN Case("dec", [schema |-> rsch', bytes |-> bi, rel |-> "fwd"], DecExp(wsch, rsch', wv, bi))
              \* the same through the real encoder of the writer type: whatever it writes, the reader must obtain the projected value
              /\ Case("xdec", [schema |-> rsch', wschema |-> wsch, val |-> wv, rel |-> "xfwd"], DecExp(wsch, rsch', wv, b))
              /\ LET p == Project(wsch, rsch', wv) IN
